@@ -27,7 +27,7 @@ Definition run_c15 (case : list Z) : list Z :=
     let conv := (1 <=? op) && (op <=? 4) in
     let ctor := (op =? 5) || (op =? 6) in
     [code_num (r_code r)] ++ enc_list (canon okind (r_contents r)) ++
-    enc_list (canon_drops (nth 1 case 0) okind (releases (r_events r))) ++
+    enc_list (canon_drops3 (nth 1 case 0) (right_kind case) okind (releases (r_events r))) ++
     [if conv && (count_kind 2 w =? 0)
      then match r_same r with Some true => 1 | Some false => 0 | None => 2 end
      else 2] ++
